@@ -150,7 +150,8 @@ def clause_algebra(R):
     ctx.path_mode_fns = lambda inst: True
     ctx.path_budget = 200000000
     ctx.hooks["may_panic"] = lambda inst: False
-    ctx.hooks["exact_collect_max"] = 64
+    ctx.hooks["exact_collect_max"] = 1100
+    ctx.hooks["keep_heads_max"] = 1100
     symalg.install(S, symalg.felt_contract_models(S))
     u32, usz = S.ty("u32"), ctx.usize_ty()
     fft = S.find(f"{FFT_IMPL}::fft")
